@@ -49,6 +49,16 @@ CLAIMS = {
              "links, initial synthesis, transitions with normalised descriptors and wildcard flag, content trees) and "
              "SameModel(M_variant, M_canonical).",
         note="Trusted: the model dump (harness/src/dump.rs) and the canonicalisation in tools/syntaxgen.py; coverage is that of the generator."),
+    "C05": dict(
+        category="translation_validation", design_ref="4/C05",
+        technique="Mirror.tla SameModel/Mirrors on reloaded models + TraceCore.tla on behaviours of the reloaded machine + primitive vectors from Rfsm.tla",
+        text="(1) For random documents over all element kinds the model obtained by parse -> write -> read must be the same model "
+             "as the parsed one and must mirror the document (Mirror.tla, evaluated by TLC). (2) Every behaviour TLC finds for the "
+             "runnable document families is replayed on the reloaded machine; its trace must be accepted by TraceCore.tla and be "
+             "identical to the original machine's trace. (3) Rfsm.tla specifies the wire format of unsigned integers and strings; "
+             "TLC checks Dec(Enc(x)) = x on boundary and irregular nibble patterns of every width and emits the vectors, which "
+             "(plus random 64-bit values) must survive write_uint/read_uint and write_str/read_string.",
+        note="Trusted: model dump/canonicalisation; generated document families. Known finding: strings >= 4096 bytes."),
     "C06": dict(
         category="model_checking", design_ref="4/C06",
         technique="TLC model checking of Session.tla (HistShape) + lock-step trace validation against Sem.tla on history documents",
@@ -108,6 +118,16 @@ CLAIMS = {
              "sacrificial process under a watchdog, followed by a probe evaluation on the same store; TraceC11.tla accepts only "
              "value/error outcomes with a usable store (rejects panic, hang, process death, locked/poisoned store).",
         note="Bounded enumeration; arbitrary byte strings outside the generated families are not covered."),
+    "C18": dict(
+        category="fault_enumeration", design_ref="4/C18",
+        technique="Rfsm.tla reader/writer protocol model-checked (CutIsError); every cut position and every single write fault of real images validated by TraceC18.tla",
+        text="The abstract reader protocol of Rfsm.tla (fields consumed from a stream that ends after `cut` bytes, sticky error flag) "
+             "is model-checked: a truncated image is never reported as success. For images written from random documents, "
+             "FsmReader::read is run on EVERY prefix length under catch_unwind, and the writer is run with EVERY write call made "
+             "short (the sink accepts 1 byte) or failing in turn; TraceC18.tla accepts an experiment only if a cut image gives "
+             "Err (never Ok, never a panic), a short write leaves the emitted image unchanged and a failed write is visible in "
+             "has_error().",
+        note="Faults are injected through the Read/Write objects handed to DefaultProtocolReader/Writer; bit corruption (as opposed to truncation) is out of scope of the property."),
     "C19": dict(
         category="model_checking", design_ref="4/C19",
         technique="trace validation of probe documents against Sem.NameMatch (token-prefix matching) under TLC",
